@@ -147,8 +147,10 @@ func (e *Engine) initAllowed(pkg *ssa.Package) bool {
 	if isStdlib(path) {
 		return sharedInitPkgs[path]
 	}
-	if strings.HasPrefix(path, "golang.org/x/") {
-		return false
+	for _, deny := range []string{"golang.org/x/", "github.com/google/go-cmp", "github.com/stretchr/", "github.com/davecgh/", "github.com/pmezard/", "gopkg.in/", "pgregory.net/"} {
+		if strings.HasPrefix(path, deny) {
+			return false
+		}
 	}
 	return true
 }
@@ -194,6 +196,8 @@ type hrun struct {
 	stopped     bool
 	problemSeen map[string]bool
 	done        chan struct{}
+	items       [][]Decision  // LIFO stack of unexplored prefixes
+	used        time.Duration // worker time consumed by this harness's paths (the wall budget is Wall x Workers of it)
 }
 
 type job struct {
@@ -204,7 +208,7 @@ type job struct {
 type workQueue struct {
 	mu      sync.Mutex
 	cond    *sync.Cond
-	items   []job
+	active  []*hrun // started, unfinished harnesses in start order
 	waiting []*hrun // harnesses not yet started
 	running int     // harnesses started and not finished
 	maxRun  int
@@ -231,6 +235,12 @@ func (e *Engine) RunHarnesses(fns []*ssa.Function, onDone func(*HarnessResult)) 
 	finish := func(h *hrun) { // q.mu held
 		h.hr.Wall = time.Since(h.t0)
 		q.running--
+		for i, x := range q.active {
+			if x == h {
+				q.active = append(q.active[:i:i], q.active[i+1:]...)
+				break
+			}
+		}
 		e.mu.Lock()
 		h.hr.Covers = e.covers[h.fn.Name()]
 		h.hr.Asserts = e.asserts[h.fn.Name()]
@@ -247,20 +257,22 @@ func (e *Engine) RunHarnesses(fns []*ssa.Function, onDone func(*HarnessResult)) 
 		q.mu.Lock()
 		defer q.mu.Unlock()
 		for {
-			if n := len(q.items); n > 0 {
-				it := q.items[n-1]
-				q.items = q.items[:n-1]
-				return it, true
+			// newest harness first: small harnesses started while a big one is running finish quickly
+			for i := len(q.active) - 1; i >= 0; i-- {
+				h := q.active[i]
+				if n := len(h.items); n > 0 {
+					it := h.items[n-1]
+					h.items = h.items[:n-1]
+					return job{h, it}, true
+				}
 			}
 			if len(q.waiting) > 0 && q.running < q.maxRun {
 				h := q.waiting[0]
 				q.waiting = q.waiting[1:]
 				h.started, h.t0 = true, time.Now()
-				if e.cfg.Wall > 0 {
-					h.deadline = h.t0.Add(e.cfg.Wall)
-				}
 				h.outstanding = 1
 				q.running++
+				q.active = append(q.active, h)
 				return job{h, nil}, true
 			}
 			if len(q.waiting) == 0 && q.running == 0 {
@@ -307,8 +319,13 @@ func (e *Engine) RunHarnesses(fns []*ssa.Function, onDone func(*HarnessResult)) 
 				var res *PathResult
 				var pending [][]Decision
 				var funcs map[*ssa.Function]int
+				tPath := time.Now()
 				if !skip {
-					res, pending, funcs = e.runPath(h.fn, jb.prefix, sol, h.deadline, h)
+					var dl time.Time
+					if e.cfg.Wall > 0 {
+						dl = tPath.Add(e.cfg.Wall)
+					}
+					res, pending, funcs = e.runPath(h.fn, jb.prefix, sol, dl, h)
 					if sol.Errors > 0 && sol.broken {
 						sol.Close()
 						sol = nil
@@ -322,7 +339,7 @@ func (e *Engine) RunHarnesses(fns []*ssa.Function, onDone func(*HarnessResult)) 
 				} else {
 					if !h.stopped {
 						for _, alt := range pending {
-							q.items = append(q.items, job{h, alt})
+							h.items = append(h.items, alt)
 							h.outstanding++
 						}
 						if len(pending) > 0 {
@@ -353,8 +370,9 @@ func (e *Engine) RunHarnesses(fns []*ssa.Function, onDone func(*HarnessResult)) 
 						hr.ModelEvents = append(hr.ModelEvents, res.Events)
 						hr.ModelObs = append(hr.ModelObs, res.Observed)
 					}
+					h.used += time.Since(tPath)
 					if hr.Paths >= e.cfg.MaxPaths || (e.cfg.StopOnViol && len(hr.Violations) > 0) ||
-						(!h.deadline.IsZero() && time.Now().After(h.deadline)) {
+						(e.cfg.Wall > 0 && h.used > e.cfg.Wall*time.Duration(e.cfg.Workers)) {
 						h.stopped = true
 					}
 				}
